@@ -6,6 +6,19 @@ use crate::rng::Rng;
 use serde_json::{json, Map, Value};
 
 pub const KEYS: &[&str] = &["a", "ab", "name", "x_1", "id", "k\"q", "\u{e9}", "val", "b", "items"];
+/// long names that share long prefixes (literal caches / display-name truncation) or differ only at the end
+pub const LONG_KEYS: &[&str] = &[
+    "additional_information_1",
+    "additional_information_2",
+    "additional_information_10",
+    "customer_contact_email_primary",
+    "customer_contact_email_secondary",
+    "aaaaaaaaaaaaaaaaaaaaaaaaaaaaaaaa",
+    "aaaaaaaaaaaaaaaaaaaaaaaaaaaaaaab",
+    "aaaaaaaaaaaaaaaaaaaaaaaaaaaaaaa",
+    "\u{43a}\u{43b}\u{44e}\u{447}_\u{437}\u{43d}\u{430}\u{447}\u{435}\u{43d}\u{438}\u{435}_\u{43e}\u{434}\u{438}\u{43d}",
+    "\u{43a}\u{43b}\u{44e}\u{447}_\u{437}\u{43d}\u{430}\u{447}\u{435}\u{43d}\u{438}\u{435}_\u{434}\u{432}\u{430}",
+];
 const WORDS: &[&str] = &["red", "redder", "green", "", "a b", "q\"uote", "line\nbreak", "\u{e9}t\u{e9}", "\u{1f422}", "back\\slash", "0", "true"];
 
 #[derive(Clone)]
@@ -232,8 +245,9 @@ impl JsonGen {
             5 => Value::Array((0..rng.below(3)).map(|_| self.gen_const(rng, depth.saturating_sub(1))).collect()),
             _ => {
                 let mut m = Map::new();
+                let pool = if rng.chance(1, 6) { LONG_KEYS } else { KEYS };
                 for _ in 0..rng.below(3) {
-                    m.insert(rng.pick(KEYS).to_string(), self.gen_const(rng, depth.saturating_sub(1)));
+                    m.insert(rng.pick(pool).to_string(), self.gen_const(rng, depth.saturating_sub(1)));
                 }
                 Value::Object(m)
             }
@@ -307,9 +321,10 @@ impl JsonGen {
     }
 
     fn gen_object(&self, rng: &mut Rng, depth: u32) -> Value {
-        let mut keys: Vec<&str> = KEYS.to_vec();
+        let long = rng.chance(1, 6);
+        let mut keys: Vec<&str> = if long { LONG_KEYS.to_vec() } else { KEYS.to_vec() };
         rng.shuffle(&mut keys);
-        let n = rng.below(4);
+        let n = if long { 2 + rng.below(3) } else { rng.below(4) };
         let mut props = Map::new();
         let mut req = vec![];
         for k in &keys[..n] {
